@@ -109,7 +109,7 @@ ITEMS = [
                  lemma_toggle(cs); lemma_push(cs, true); lemma_push(cs, false);
                  if cs.len() > 0 { lemma_pop(cs); }
              }'''),
-             dict(before='Ok(())', label='ext_eq_hint', text='''
+             dict(before_re=r'Ok\(\(\)\)\s*\}\s*$', label='ext_eq_hint', text='''
                  let a = abs_step(old(self).abs(), *ev, old(self).per_doc());
                  assert(self.abs().stack =~= a.stack);
                  assert(self.abs().anchors =~= a.anchors);''')],
